@@ -57,6 +57,7 @@ type c21State struct {
 	damaged          bool      // a Save failed since the last Save that reported true: the file is one of its crash images
 	outstanding      bool      // a Save of this cache object failed and none has reported true since (a reload starts a new object)
 	alts             [][]c21Item // contents of the cache at each failed Save since then: a damaged file may hold one of them instead of saved
+	stor             data_model.VerifC21Snap // the storage object's own state (size of the file when it was opened, position, hash, write error ...) as left by the last Save / reload of this history: ONE storage object lives from a (re)load to the next reload, c21Build resumes it instead of opening a new one
 	hist             []string
 	k                string
 	evicted          bool // the step into this state went through the eviction path (statistics only)
@@ -82,7 +83,7 @@ func (s *c21State) computeKey() string {
 	for _, it := range s.saved {
 		fmt.Fprintf(&b, "%s=%d@%d,", it.k, it.v, int64(s.now)-int64(it.ts))
 	}
-	fmt.Fprintf(&b, "|%v,%d,%v,%v", s.refDirty, s.faults, s.damaged, s.outstanding)
+	fmt.Fprintf(&b, "|%v,%d,%v,%v|%s", s.refDirty, s.faults, s.damaged, s.outstanding, s.stor.Key())
 	if s.damaged {
 		// Without a failed Save the file is a function of saved (Save writes in sorted order), and shifting all times is
 		// a symmetry. A crash image of a failed Save is not: it is kept literally (its absolute access times included, so
@@ -106,7 +107,7 @@ var c21Stores = sync.Pool{New: func() any { return data_model.VerifC21NewReader(
 func c21Build(s *c21State, order []int, store *data_model.VerifC21Reader) *MappingsCache {
 	var st *data_model.ChunkedStorage2
 	if store != nil {
-		st = store.Open(s.file)
+		st = store.Resume(s.file, s.stor) // the object opened at the last (re)load lives on; the first state opens an absent file
 	}
 	c := NewMappingsCache(st, s.maxSize, int(s.maxTTL))
 	c.deterministic = true
@@ -135,16 +136,18 @@ func (se *c21Search) c21Load(file []byte) (*MappingsCache, error) {
 	st := store.Open(file)
 	c := NewMappingsCache(st, 1000, 0)
 	err := c.load(st)
+	snap := store.Snapshot() // the state a cache's storage object is in right after loading this file
 	c.storage = nil // the storage object goes back to the pool; the loaded cache is only observed
 	c.deterministic = true
 	se.loads.Add(1)
-	se.loaded.Store(string(file), c21Loaded{c, err})
+	se.loaded.Store(string(file), c21Loaded{c, err, snap})
 	return c, err
 }
 
 type c21Loaded struct {
-	c   *MappingsCache
-	err error
+	c    *MappingsCache
+	err  error
+	snap data_model.VerifC21Snap
 }
 
 // c21OneOf: got equals one of the candidate contents (access times included).
@@ -354,7 +357,7 @@ func (se *c21Search) c21Apply(s *c21State, op *c21Op, order []int, expired map[s
 	}
 	now := s.now
 	ns := &c21State{maxSize: s.maxSize, maxTTL: s.maxTTL, now: s.now, dirty: s.dirty, file: s.file, saved: s.saved,
-		refDirty: s.refDirty, faults: s.faults, damaged: s.damaged, outstanding: s.outstanding, alts: s.alts}
+		refDirty: s.refDirty, faults: s.faults, damaged: s.damaged, outstanding: s.outstanding, alts: s.alts, stor: s.stor}
 	accepted = true
 	evicted := false
 	visited := func() map[string]bool {
@@ -459,6 +462,9 @@ func (se *c21Search) c21Apply(s *c21State, op *c21Op, order []int, expired map[s
 			}
 		}
 		ok, err := c.Save()
+		if store != nil {
+			ns.stor = store.Snapshot() // whatever the Save left in the storage object is what the next Save of this history meets
+		}
 		if op.kind == c21SaveFault {
 			if !hit || skip {
 				return nil, true, "", "", false // this Save makes fewer storage calls: the fault is not applicable here
@@ -502,6 +508,9 @@ func (se *c21Search) c21Apply(s *c21State, op *c21Op, order []int, expired map[s
 	case c21Reload:
 		var lerr error
 		c, lerr = se.c21Load(s.file)
+		if v, ok := se.loaded.Load(string(s.file)); ok {
+			ns.stor = v.(c21Loaded).snap // a reload opens a new storage object over the file as it is now
+		}
 		got := c21Snapshot(c)
 		if !s.damaged {
 			if lerr != nil || fmt.Sprint(got) != fmt.Sprint(s.saved) {
